@@ -640,6 +640,12 @@ func (root *Root) resolveField(
 // mergeValues merges the results of two selections with the same response
 // key. Objects are merged key by key and lists element by element.
 func mergeValues(prev, next interface{}) interface{} {
+	if prev == nil {
+		// A null stays a null. It is what the resolver gave or the place of
+		// a failure that has been reported, a later selection of the same
+		// key that happens to succeed does not undo that.
+		return nil
+	}
 	switch tp := prev.(type) {
 	case map[string]interface{}:
 		if tn, ok := next.(map[string]interface{}); ok {
